@@ -11,6 +11,7 @@ FORMULAS = {
     'C06': ['HostSurvives', 'SoftOnceInTask'],
     'C09': ['HostSurvives', 'RecycleHarmless', 'LossSparesOthers', 'IdleLossHarmless', 'DiscardNoHoldUp'],
     'C10': ['HostSurvives', 'SendFailSlot'],
+    'C11': ['HostSurvives', 'BudgetAckResets', 'BudgetStops'],
 }
 KNOWN = {'C04': [('TolImapLoss', ['LossReported'])], 'C01': [('TolImapLoss', ['LossReported'])],
          'C10': [('TolSendFailSlot', ['SendFailSlot'])], 'C09': [('TolDiscardCredit', ['DiscardNoHoldUp'])]}
@@ -38,6 +39,10 @@ def scenarios(pid, thorough):
         S.append(dict(kind='sendfail'))
     if pid == 'C10':
         S.append(dict(kind='sendfail'))
+    if pid == 'C11':
+        for maxr in ((1, 2, 3) if thorough else (2,)):
+            S.append(dict(kind='budget', variant='ack', maxr=maxr))
+            S.append(dict(kind='budget', variant='exceed', maxr=maxr))
     if pid == 'C05':
         for procs in (1, 2):
             for where in ('job', 'pool', 'both'):
